@@ -327,6 +327,11 @@ func labels(c Case) []string {
 		if len(c.Meta.Definition) >= 4096 || len(c.Desc) >= 4096 || len(c.Meta.Other["COMMENT"]) >= 4096 {
 			set["text field of >= 4096 bytes"] = true
 		}
+		if len(c.Features) > 256 {
+			set["more than 256 features"] = true
+		} else if len(c.Features) >= 30 {
+			set["30..256 features"] = true
+		}
 		for _, f := range c.Features {
 			if d := depth(f.Loc); d >= 1 {
 				set[fmt.Sprintf("nested location depth %d", min(d, 4))] = true
@@ -440,6 +445,12 @@ func genValue(t *rapid.T) Case {
 	}
 	n := len(c.Seq.String())
 	nf := rapid.IntRange(0, 6).Draw(t, "n_features")
+	// one value in sixteen is an annotated genome rather than a plasmid map: some hundred features (each with its own
+	// name, type and qualifier keys: several hundred distinct words in one document), locations kept shallow
+	many := rapid.IntRange(0, 15).Draw(t, "many_features") == 0
+	if many {
+		nf = rapid.SampledFrom([]int{30, 64, 100, 127, 128, 200, 255, 256, 257, 300, 400}).Draw(t, "n_features_many")
+	}
 	if n == 0 {
 		nf = 0
 	}
@@ -450,6 +461,12 @@ func genValue(t *rapid.T) Case {
 			GbkLocationString: tx(fn + "_loctext"), Sequence: tx(fn + "_sequence"), SequenceHash: tx(fn + "_hash"), Description: tx(fn + "_description"), SequenceHashFunction: tx(fn + "_hashfn")}
 		f.Attributes = drawMap(t, fn+"_attr")
 		f.AttributesNil = len(f.Attributes) == 0 && rapid.Bool().Draw(t, fn+"_attr_nil")
+		if many {
+			f.Name, f.Type = fmt.Sprintf("gene_%04d %s", i, f.Name), fmt.Sprintf("%s_%d", f.Type, i%97)
+			f.Loc = insdc.Draw(t, fn+"_loc", n, i%2)
+			c.Features = append(c.Features, f)
+			continue
+		}
 		f.Loc = insdc.Draw(t, fn+"_loc", n, rapid.IntRange(0, 4).Draw(t, fn+"_loc_depth"))
 		f.EmptySubs = rapid.IntRange(0, 3).Draw(t, fn+"_empty_sublocations") == 0
 		if rapid.IntRange(0, 7).Draw(t, fn+"_zero_span") == 0 {
